@@ -95,7 +95,7 @@ theorem evalList_ints {rec : St → Sx → Res} (hrec : ∀ st (i : Int), rec st
   intro is
   induction is with
   | nil => intro st; rfl
-  | cons i is ih => intro st; simp [evalList, hrec, ih, bind, Except.bind]
+  | cons i is ih => intro st; simp [evalList, hrec, ih, bind, Except.bind]; rfl
 
 theorem foldlM_ints (is : List Int) (a : Int) :
     (is.map Sx.int).foldlM (m := Except Err) (fun acc v => match acc, v with
@@ -103,7 +103,9 @@ theorem foldlM_ints (is : List Int) (a : Int) :
           | _, _ => throw Err.unsupported) (Sx.int a) = .ok (Sx.int (is.foldl (· + ·) a)) := by
   induction is generalizing a with
   | nil => rfl
-  | cons i is ih => simp [List.foldlM, ih, bind, Except.bind, pure, Except.pure]
+  | cons i is ih =>
+    simp only [List.map_cons, List.foldlM_cons, bind, Except.bind, pure, Except.pure]
+    exact ih (a + i)
 
 theorem opt_step {n : Nat} (ih : OptClosed (eval n)) : OptClosed (eval (n+1)) := by
   intro st e r hr
@@ -130,6 +132,7 @@ theorem opt_step {n : Nat} (ih : OptClosed (eval n)) : OptClosed (eval (n+1)) :=
           · rename_i ht; simp only [ht, if_true] at h2; exact mono _ _ _ (ih _ _ _ h2)
           · rename_i ht; simp only [ht] at h2; exact mono _ _ _ (ih _ _ _ h2)
         · simp only [hl]
+          show eval (n+1) st (.list [.op .iff, optimize c, optimize a, optimize b]) = .ok r
           simp only [eval, evalStep, bind_ok]
           refine ⟨(cv, st1), h1', ?_⟩
           revert h2; simp only; split
@@ -167,26 +170,111 @@ theorem opt_step {n : Nat} (ih : OptClosed (eval n)) : OptClosed (eval (n+1)) :=
         have := allInts_spec _ _ heq
         rw [this] at h1'
         cases n with
-        | zero => cases args <;> simp [evalList, eval, optList] at h1 h1' this ⊢ <;> sorry
+        | zero =>
+          cases args with
+          | nil =>
+            simp only [evalList, Except.ok.injEq, Prod.mk.injEq] at h1
+            obtain ⟨rfl, rfl⟩ := h1
+            simp only [optList] at this
+            have his : is = [] := by
+              cases is with
+              | nil => rfl
+              | cons i r => simp at this
+            subst his
+            simp [List.foldlM, pure, Except.pure] at h2 h3
+            subst h2; subst h3
+            simp [eval, evalStep]
+          | cons a as =>
+            simp only [evalList, eval, bind, Except.bind] at h1
+            cases h1
         | succ n =>
           rw [evalList_ints (fun st i => by simp [eval, evalStep])] at h1'
           simp only [Except.ok.injEq, Prod.mk.injEq] at h1'
           obtain ⟨rfl, rfl⟩ := h1'
-          rw [foldlM_ints] at h2
-          simp only [Except.ok.injEq] at h2
-          subst h2
+          dsimp only at h2
+          have hh := (foldlM_ints is 0).symm.trans h2
+          simp only [Except.ok.injEq] at hh
+          subst hh
           simp only [pure, Except.pure, Except.ok.injEq] at h3
           subst h3
           simp [eval, evalStep]
       · simp only [eval, evalStep, bind_ok]
         exact ⟨(vs, st1), h1', r0, h2, h3⟩
-    | eq => sorry
-    | reval => sorry
-    | step => sorry
-    | find => sorry
-    | print => sorry
-    | gt => sorry
-    | andd => sorry
+    | eq =>
+      simp only [optimize]
+      simp only [eval, evalStep, bind_ok] at hr ⊢
+      obtain ⟨⟨vs, st1⟩, h1, h2⟩ := hr
+      exact ⟨(vs, st1), evalList_opt ih _ _ _ h1, h2⟩
+    | reval =>
+      simp only [optimize]
+      match args, hr with
+      | [e0, k], hr =>
+        simp only [optList]
+        simp only [eval, evalStep, opReval, bind_ok] at hr ⊢
+        obtain ⟨⟨kv, st1⟩, h1, h2⟩ := hr
+        refine ⟨(kv, st1), ih _ _ _ h1, ?_⟩
+        revert h2; simp only; split
+        · split
+          · exact id
+          · simp only [bind_ok]
+            rintro ⟨⟨v, st2⟩, h3, h4⟩
+            exact ⟨(v, st2), ih _ _ _ h3, h4⟩
+        · exact id
+      | [], hr => simp [eval, evalStep, opReval] at hr
+      | [_], hr => simp [eval, evalStep, opReval] at hr
+      | _ :: _ :: _ :: _, hr => simp [eval, evalStep, opReval] at hr
+    | step =>
+      simp only [optimize]
+      match args, hr with
+      | [], hr => simpa [optList] using hr
+      | [k], hr =>
+        simp only [optList]
+        simp only [eval, evalStep, bind_ok] at hr ⊢
+        obtain ⟨⟨kv, st1⟩, h1, h2⟩ := hr
+        exact ⟨(kv, st1), ih _ _ _ h1, h2⟩
+      | _ :: _ :: _, hr => simp [eval, evalStep] at hr
+    | find =>
+      simp only [optimize]
+      match args, hr with
+      | [c], hr =>
+        simp only [optList]
+        simp only [eval, evalStep, opFind] at hr ⊢
+        split at hr
+        · rename_i c' t heq1 heq2
+          simp only [List.cons.injEq, and_true] at heq1
+          subst heq1
+          simp only [heq2, bind_ok] at hr ⊢
+          obtain ⟨⟨f, st1⟩, h1, h2⟩ := hr
+          exact ⟨(f, st1), findLoop_opt ih _ _ _ _ _ h1, h2⟩
+        · simp at hr
+      | [], hr => simp [eval, evalStep, opFind] at hr
+      | _ :: _ :: _, hr => simp [eval, evalStep, opFind] at hr
+    | print =>
+      simp only [optimize]
+      simp only [eval, evalStep, bind_ok] at hr ⊢
+      obtain ⟨⟨vs, st1⟩, h1, h2⟩ := hr
+      exact ⟨(vs, st1), evalList_opt ih _ _ _ h1, h2⟩
+    | gt =>
+      simp only [optimize]
+      simp only [eval, evalStep, bind_ok] at hr ⊢
+      obtain ⟨⟨vs, st1⟩, h1, h2⟩ := hr
+      exact ⟨(vs, st1), evalList_opt ih _ _ _ h1, h2⟩
+    | andd =>
+      simp only [optimize]
+      match args, hr with
+      | [a, b], hr =>
+        simp only [optList]
+        simp only [eval, evalStep, bind_ok] at hr ⊢
+        obtain ⟨⟨av, st1⟩, h1, h2⟩ := hr
+        refine ⟨(av, st1), ih _ _ _ h1, ?_⟩
+        revert h2; simp only; split
+        · exact id
+        · simp only [bind_ok]
+          rintro ⟨⟨bv, st2⟩, h3, h4⟩
+          exact ⟨(bv, st2), ih _ _ _ h3, h4⟩
+      | [], hr => simp [eval, evalStep] at hr
+      | [_], hr => simp [eval, evalStep] at hr
+      | _ :: _ :: _ :: _, hr => simp [eval, evalStep] at hr
   | .list [] => simpa [optimize] using hr
   | .list (.none :: _) => simpa [optimize] using hr
   | .list (.int _ :: _) => simpa [optimize] using hr
@@ -200,5 +288,14 @@ theorem opt_step {n : Nat} (ih : OptClosed (eval n)) : OptClosed (eval (n+1)) :=
   | .str _ => simpa [optimize] using hr
   | .sym _ _ => simpa [optimize] using hr
   | .op _ => simpa [optimize] using hr
+
+
+/-- **C08 on the mini evaluator**: whatever `e` evaluates to with fuel `n`, `optimize e` evaluates to the same
+    value and state (same output, same trace positions) with the same fuel. -/
+theorem optimize_preserves : ∀ n, OptClosed (eval n) := by
+  intro n
+  induction n with
+  | zero => intro st e r h; simp [eval] at h
+  | succ n ih => exact opt_step ih
 
 end W
